@@ -149,13 +149,13 @@ Denotes(bytes, s, bits, V(_)) ==
        [] mn = "IN" /\ k = 2 ->
             /\ d.mn = "IN" /\ Len(d.ops) = 2 /\ o[1].t = "r" /\ o[1].n = 0 /\ d.ops[1] = R(o[1].w, 0)
             /\ IF o[2].t = "r" THEN o[2] = R(16, 2) /\ d.ops[2] = R(16, 2)
-               ELSE d.ops[2].t = "i" /\ d.ops[2].b = LE(V(o[2]), 1)
+               ELSE d.ops[2].t = "i" /\ V(o[2]) \in 0..255 /\ d.ops[2].b = LE(V(o[2]), 1)      \* a port number is an unsigned byte
        [] mn = "OUT" /\ k = 2 ->
             /\ d.mn = "OUT" /\ Len(d.ops) = 2 /\ o[2].t = "r" /\ o[2].n = 0 /\ d.ops[2] = R(o[2].w, 0)
             /\ IF o[1].t = "r" THEN o[1] = R(16, 2) /\ d.ops[1] = R(16, 2)
-               ELSE d.ops[1].t = "i" /\ d.ops[1].b = LE(V(o[1]), 1)
+               ELSE d.ops[1].t = "i" /\ V(o[1]) \in 0..255 /\ d.ops[1].b = LE(V(o[1]), 1)
        [] mn = "INT" /\ k = 1 ->
-            \/ d.mn = "INT" /\ Len(d.ops) = 1 /\ d.ops[1].b = LE(V(o[1]), 1)
+            \/ d.mn = "INT" /\ Len(d.ops) = 1 /\ V(o[1]) \in 0..255 /\ d.ops[1].b = LE(V(o[1]), 1)
             \/ d.mn = "INT3" /\ V(o[1]) = 3
        [] mn \in {"RET", "RETN", "RETF"} /\ k = 1 ->
             /\ d.mn = (IF mn = "RETF" THEN "RETF" ELSE "RET")
